@@ -288,6 +288,9 @@ func (q *query) gql() string {
 		return "query { Doc" + a + " { _docID name age score flag } }"
 	case "count":
 		return "query { _count(Doc: {" + q.args("") + "}) }"
+	case "sum2", "avg2":
+		fs := strings.SplitN(parts[1], ":", 2)
+		return "query { _" + parts[0][:3] + "(Doc: {" + q.args(fs[0]) + "}, Aux: {field: " + fs[1] + "}) }"
 	default:
 		return "query { _" + parts[0] + "(Doc: {" + q.args(parts[1]) + "}) }"
 	}
@@ -304,6 +307,7 @@ type world struct {
 	byID    map[string]*doc
 	caseID  int
 	idxDesc string
+	aux     []auxDoc
 }
 
 type gqlRes struct {
@@ -385,9 +389,23 @@ func (w *world) render(q *query, r gqlRes) string {
 		return strings.Join(p, ",")
 	case "count":
 		return "int:" + fmt.Sprint(r.scalar)
-	case "avg":
+	case "avg", "avg2":
 		f, _ := r.scalar.(json.Number).Float64()
 		return "avgbits:" + strconv.FormatUint(math.Float64bits(f), 16)
+	case "sum2":
+		if r.scalar == nil {
+			return "null"
+		}
+		fs := strings.SplitN(kind[1], ":", 2)
+		num := r.scalar.(json.Number)
+		if fieldKinds[fs[0]] == "f" || fs[1] == "w" {
+			f, _ := num.Float64()
+			return "num8:" + strconv.FormatFloat(f*8, 'f', -1, 64)
+		}
+		if i, err := num.Int64(); err == nil {
+			return "int:" + strconv.FormatInt(i, 10)
+		}
+		return "notint:" + num.String()
 	default:
 		if r.scalar == nil {
 			return "null"
@@ -590,6 +608,10 @@ func (w *world) checkAggregate(q *query, got string, line int) {
 	base := *q
 	base.sel = "docs"
 	kind := strings.SplitN(q.sel, ":", 2)
+	if kind[0] == "sum2" || kind[0] == "avg2" {
+		w.checkAggregate2(q, got, line)
+		return
+	}
 	if kind[0] == "avg" {
 		// _avg skips nil items: the listed documents are those with a non-nil field, before limit/offset
 		base.filter = &filt{op: "and", a: q.filter, b: &filt{op: "ne", f: kind[1], v: val{k: "n"}}}
@@ -658,6 +680,54 @@ func (w *world) checkAggregate(q *query, got string, line int) {
 	}
 }
 
+// an aggregate over two sources is the arithmetic over the values of both; it is a float as soon as one source is
+func (w *world) checkAggregate2(q *query, got string, line int) {
+	kind := strings.SplitN(q.sel, ":", 3)
+	f, g := kind[1], kind[2]
+	base := *q
+	base.sel = "docs"
+	labels := labelsOf(w.render(&base, exec(w.ctx, w.n, base.gql())))
+	var sum8 int64 // in eighths
+	n := 0
+	for _, l := range labels {
+		v := w.docByLabel(l).fields[f]
+		if v.k == "n" {
+			continue
+		}
+		if fieldKinds[f] == "f" {
+			sum8 += v.i
+		} else {
+			sum8 += v.i * 8
+		}
+		n++
+	}
+	for _, a := range w.aux {
+		if g == "w" {
+			sum8 += a.w8
+			n++
+		} else if !a.vNil {
+			sum8 += a.v * 8
+			n++
+		}
+	}
+	isF := fieldKinds[f] == "f" || g == "w"
+	want := ""
+	if kind[0] == "sum2" {
+		if isF {
+			want = "num8:" + strconv.FormatInt(sum8, 10)
+		} else {
+			want = "int:" + strconv.FormatInt(sum8/8, 10)
+		}
+	} else if n == 0 {
+		want = "avgbits:0"
+	} else {
+		want = "avgbits:" + strconv.FormatUint(math.Float64bits(float64(sum8)/8/float64(n)), 16)
+	}
+	if want != got {
+		w.out.Oracle(line, fmt.Sprintf("[aggregate-wrong] case %d: %s returns %s; the arithmetic over the listed documents %v and the second source gives %s", w.caseID, q.gql(), got, labels, want))
+	}
+}
+
 func genQuery(r *vc.Rng) *query {
 	q := &query{filter: &filt{op: "T"}, sel: "docs"}
 	if r.Chance(8, 10) {
@@ -700,7 +770,16 @@ const sdl = `type Doc {
 	age: Int
 	score: Float
 	flag: Boolean
+}
+type Aux {
+	v: Int
+	w: Float
 }`
+
+type auxDoc struct {
+	v, w8 int64
+	vNil  bool
+}
 
 type idxSpec struct {
 	fields []okey
@@ -743,6 +822,29 @@ func (w *world) loadDocs(r *vc.Rng, ndocs int) {
 			must(tcol.Create(w.ctx, td))
 		}
 		w.docs = append(w.docs, d)
+	}
+	// the second aggregate source
+	nodes := []*vnode.Node{w.n}
+	if w.twin != nil {
+		nodes = append(nodes, w.twin)
+	}
+	for i := 0; i < 1+r.Intn(3); i++ {
+		a := auxDoc{v: []int64{1, 2, 7}[r.Intn(3)] + int64(i)*10, w8: []int64{6, 9, 13}[r.Intn(3)] + int64(i)*16, vNil: r.Chance(1, 5)}
+		m := map[string]any{"w": float64(a.w8) / 8}
+		tok := "n"
+		if !a.vNil {
+			m["v"] = a.v
+			tok = strconv.FormatInt(a.v, 10)
+		}
+		for _, nd := range nodes {
+			ac, err := nd.DB.GetCollectionByName(w.ctx, "Aux")
+			must(err)
+			ad, err := client.NewDocFromMap(m, ac.Definition())
+			must(err)
+			must(ac.Create(w.ctx, ad))
+		}
+		w.aux = append(w.aux, a)
+		w.out.Emit(fmt.Sprintf("aux %s %d", tok, a.w8), "ok")
 	}
 	sort.Slice(w.docs, func(i, j int) bool { return w.docs[i].id < w.docs[j].id })
 	w.byID = map[string]*doc{}
@@ -927,7 +1029,58 @@ func runCase(ctx context.Context, out *vc.Out, caseID int, seed uint64, tier str
 		for i := 0; i < nq; i++ {
 			w.run(genQuery(r))
 		}
+		// every operator once per indexed field (per field in plain mode), with null and non-null operands:
+		// the operators whose answer includes documents WITHOUT a value are the ones an index plan gets wrong
+		sweep := fieldNames
+		if withTwin {
+			sweep = nil
+			seen := map[string]bool{}
+			for _, sp := range specs {
+				for _, k := range sp.fields {
+					if !seen[k.f] {
+						seen[k.f] = true
+						sweep = append(sweep, k.f)
+					}
+				}
+			}
+		}
+		for _, f := range sweep {
+			for _, fl := range operatorSweep(r, f) {
+				w.run(&query{filter: fl, sel: "docs"})
+			}
+		}
+		// aggregates over several sources
+		for _, sel := range []string{"sum2:score:v", "sum2:age:w", "sum2:age:v", "avg2:score:v", "avg2:age:w"} {
+			q := genQuery(r)
+			q.order, q.limit, q.offset = nil, 0, 0
+			q.sel = sel
+			w.run(q)
+		}
 	}()
+}
+
+// operatorSweep: one filter per operator on field f
+func operatorSweep(r *vc.Rng, f string) []*filt {
+	null := val{k: "n"}
+	v := genVal(r, f, 0)
+	out := []*filt{
+		{op: "eq", f: f, v: null}, {op: "ne", f: f, v: null}, {op: "eq", f: f, v: v}, {op: "ne", f: f, v: v},
+		{op: "in", f: f, vs: []val{v, null}}, {op: "nin", f: f, vs: []val{v}}, {op: "nin", f: f, vs: []val{v, null}},
+		{op: "not", a: &filt{op: "eq", f: f, v: v}},
+	}
+	if fieldKinds[f] == "i" || fieldKinds[f] == "f" {
+		for _, op := range []string{"gt", "ge", "lt", "le"} {
+			out = append(out, &filt{op: op, f: f, v: v})
+		}
+	}
+	if fieldKinds[f] == "s" {
+		for _, op := range []string{"like", "nlike", "ilike", "nilike"} {
+			for mode := 0; mode < 4; mode++ {
+				out = append(out, &filt{op: op, f: f, mode: mode, v: val{k: "s", s: []string{"a", "b", "B"}[r.Intn(3)]}})
+			}
+		}
+	}
+	return out
 }
 
 // malformed / hostile request stream (no-panic, no-hang clause): exploration, not proof
